@@ -1409,4 +1409,169 @@ theorem witness_double_count :
     (run false 1 none witness).2.map (fun l => l.map (·.value)) = [[some 20], [], [], [some 50]] := by
   decide +kernel
 
+/-! ## the post-processor and the driver's buffer -/
+
+theorem calculate_nil (fix : Bool) (bi : Nat) (stats : List (Nat × TaskStats)) : calculate fix bi stats [] = (stats, []) := rfl
+
+theorem postprocess_eq (stats : List (Nat × TaskStats)) (raw : List (Nat × TSample)) :
+    postprocess stats raw = ((calculate current 1 stats raw).1, recordsOf (calculate current 1 stats raw).2) := by
+  cases raw with
+  | nil => rfl
+  | cons x xs => rfl
+
+theorem calcGroups_keys (fix : Bool) (bi : Nat) : ∀ (g : List (Nat × List TSample)) (stats : List (Nat × TaskStats)),
+    (calcGroups fix bi stats g).2.map (·.1) = keysG g := by
+  intro g
+  induction g with
+  | nil => intro stats; rfl
+  | cons kv g ih =>
+    obtain ⟨k, v⟩ := kv
+    intro stats
+    simp only [calcGroups, List.map_cons, keysG]
+    rw [ih]
+    rfl
+
+theorem calculate_keys_nodup (fix : Bool) (bi : Nat) (stats : List (Nat × TaskStats)) (samples : List (Nat × TSample)) :
+    ((calculate fix bi stats samples).2.map (·.1)).Nodup := by
+  unfold calculate
+  rw [calcGroups_keys]
+  exact (groupByTask_inv samples).nodup
+
+theorem recsOf_append (k : Nat) (a b : List (Nat × Out)) : recsOf k (a ++ b) = recsOf k a ++ recsOf k b := by
+  simp [recsOf]
+
+theorem recsOf_map (k k' : Nat) (o : List Out) :
+    recsOf k (o.map (fun x => (k', x))) = if k' = k then o else [] := by
+  induction o with
+  | nil => simp [recsOf]
+  | cons x xs ih =>
+    by_cases h : k' = k
+    · simp only [h, if_true] at ih ⊢
+      simp only [recsOf, List.map_cons, List.filter_cons, beq_self_eq_true, if_true] at ih ⊢
+      rw [ih]
+    · simp only [h, if_false] at ih ⊢
+      simp only [recsOf, List.map_cons, List.filter_cons] at ih ⊢
+      have : (k' == k) = false := by simpa using h
+      simp only [this, Bool.false_eq_true, if_false]
+      exact ih
+
+theorem outsOf_notmem (k : Nat) : ∀ l : List (Nat × List Out), k ∉ l.map (·.1) → outsOf k l = [] := by
+  intro l
+  induction l with
+  | nil => intro _; rfl
+  | cons kv l ih =>
+    obtain ⟨k', o⟩ := kv
+    intro h
+    simp only [List.map_cons, List.mem_cons, not_or] at h
+    have : ¬ k' = k := fun e => h.1 e.symm
+    simp only [outsOf, this, if_false]
+    exact ih h.2
+
+/-- with distinct keys, filtering the flat record list by task gives back the task's tuples -/
+theorem recsOf_recordsOf (k : Nat) : ∀ l : List (Nat × List Out), (l.map (·.1)).Nodup →
+    recsOf k (recordsOf l) = outsOf k l := by
+  intro l
+  induction l with
+  | nil => intro _; rfl
+  | cons kv l ih =>
+    obtain ⟨k', o⟩ := kv
+    intro hnd
+    simp only [List.map_cons, List.nodup_cons] at hnd
+    have hrec : recordsOf ((k', o) :: l) = o.map (fun x => (k', x)) ++ recordsOf l := by
+      simp [recordsOf]
+    rw [hrec, recsOf_append, recsOf_map, ih hnd.2]
+    by_cases h : k' = k
+    · subst h
+      simp only [if_true, outsOf]
+      rw [outsOf_notmem k' l hnd.1, List.append_nil]
+    · simp [h, outsOf]
+
+theorem postprocessAll_nil (stats : List (Nat × TaskStats)) : postprocessAll stats [] = (stats, []) := rfl
+theorem postprocessAll_cons (stats : List (Nat × TaskStats)) (c : List (Nat × TSample)) (cs : List (List (Nat × TSample))) :
+    postprocessAll stats (c :: cs) =
+      ((postprocessAll (postprocess stats c).1 cs).1, (postprocess stats c).2 :: (postprocessAll (postprocess stats c).1 cs).2) := rfl
+
+/-- the post-processor, seen from task `k`, is the single-task run over the task's samples of each batch -/
+theorem postprocessAll_task (k : Nat) : ∀ (calls : List (List (Nat × TSample))) (stats : List (Nat × TaskStats)),
+    lookupStats k (postprocessAll stats calls).1 = (run current 1 (lookupStats k stats) (calls.map (samplesOf k))).1 ∧
+    (postprocessAll stats calls).2.map (recsOf k) = (run current 1 (lookupStats k stats) (calls.map (samplesOf k))).2 := by
+  intro calls
+  induction calls with
+  | nil => intro stats; simp [postprocessAll_nil, run_nil]
+  | cons c cs ih =>
+    intro stats
+    obtain ⟨c1, c2⟩ := calculate_task current 1 stats c k
+    rw [postprocessAll_cons, List.map_cons, run_cons, postprocess_eq]
+    obtain ⟨i1, i2⟩ := ih (calculate current 1 stats c).1
+    simp only [List.map_cons]
+    rw [i1, i2, c1, recsOf_recordsOf k _ (calculate_keys_nodup current 1 stats c), c2]
+    exact ⟨rfl, rfl⟩
+
+/-- any interleaving of shipments and post-processing runs is the post-processor applied to the batches the runs cut -/
+theorem driverRun_eq : ∀ (evs : List DEvent) (buf : List (Nat × TSample)) (stats : List (Nat × TaskStats)),
+    (driverRun buf stats evs).2 = (postprocessAll stats (driverBatches buf evs)).2 ∧
+    (driverRun buf stats evs).1.2 = (postprocessAll stats (driverBatches buf evs)).1 := by
+  intro evs
+  induction evs with
+  | nil => intro buf stats; exact ⟨rfl, rfl⟩
+  | cons e evs ih =>
+    intro buf stats
+    cases e with
+    | update samples => exact ih (buf ++ samples) stats
+    | postProcess =>
+      obtain ⟨i1, i2⟩ := ih [] (postprocess stats buf).1
+      simp only [driverRun, driverBatches, postprocessAll_cons]
+      rw [i1, i2]
+      exact ⟨rfl, rfl⟩
+
+/-- the batches are a cutting of what was shipped: nothing lost, nothing twice, order kept; the rest is still buffered -/
+theorem driverBatches_flatten : ∀ (evs : List DEvent) (buf : List (Nat × TSample)) (stats : List (Nat × TaskStats)),
+    (driverBatches buf evs).flatten ++ (driverRun buf stats evs).1.1 = buf ++ shipped evs := by
+  intro evs
+  induction evs with
+  | nil => intro buf stats; simp [driverBatches, driverRun, shipped]
+  | cons e evs ih =>
+    intro buf stats
+    cases e with
+    | update samples =>
+      simp only [driverBatches, driverRun, shipped]
+      rw [ih (buf ++ samples) stats, List.append_assoc]
+    | postProcess =>
+      simp only [driverBatches, driverRun, shipped, List.flatten_cons]
+      rw [List.append_assoc, ih [] (postprocess stats buf).1]
+      simp
+
+theorem samplesOf_flatten (k : Nat) (l : List (List (Nat × TSample))) :
+    samplesOf k l.flatten = (l.map (samplesOf k)).flatten := by
+  induction l with
+  | nil => rfl
+  | cons a l ih => simp only [List.flatten_cons, List.map_cons, samplesOf_append, ih]
+
+
+/-- a tuple emitted for the one sample that is not earlier than any other sample fed so far counts *everything*
+    fed so far: the value does not depend on how the samples were cut into batches -/
+theorem valueSpec_latest {start : Rat} {fed : List TSample} {o : Out} (h : ValueSpec start fed o)
+    (hl : fed.countP (fun x => decide (o.abs ≤ x.abs)) = 1) :
+    ∃ iv, IsMaxElapsed start fed iv ∧ 0 < iv ∧ o.value = some (Dbl.fdiv (Dbl.ofNat (sumOps fed)) iv) := by
+  obtain ⟨P, R, hperm, hR, ⟨s, hsP, hsabs, _⟩, iv, hmax, hpos, hval⟩ := h
+  have hc := hperm.countP_eq (fun x => decide (o.abs ≤ x.abs))
+  rw [List.countP_append, hl] at hc
+  have hP : 0 < P.countP (fun x => decide (o.abs ≤ x.abs)) := by
+    rw [List.countP_pos_iff]
+    exact ⟨s, hsP, by simp [hsabs]⟩
+  have hRall : R.countP (fun x => decide (o.abs ≤ x.abs)) = R.length := by
+    rw [List.countP_eq_length]
+    intro r hr
+    simpa using hR r hr
+  have hRnil : R = [] := by
+    apply List.eq_nil_of_length_eq_zero
+    omega
+  subst hRnil
+  rw [List.append_nil] at hperm
+  refine ⟨iv, ⟨?_, ?_⟩, hpos, ?_⟩
+  · intro x hx; exact hmax.1 x (hperm.symm.subset hx)
+  · obtain ⟨x, hx, hxe⟩ := hmax.2; exact ⟨x, hperm.subset hx, hxe⟩
+  · rw [hval, sumOps_perm hperm]
+
+
 end Throughput
